@@ -183,6 +183,8 @@ func init() {
 		ID: "C12",
 		Harnesses: []HarnessSpec{
 			{Dir: "merkleblock", Name: "ZZ_C12_extract", Variant: "n<=2,flags<=1B,4-hash alphabet", Reach: []string{"extracted", "accepted"}, Tweak: merkleCfg("maxn", 2, "maxflagbytes", 1, "hashbits", 2)},
+			{Dir: "merkleblock", Name: "ZZ_C12_extract", Variant: "n=4,<=2 hashes,4-hash alphabet", Reach: []string{"extracted"}, Tweak: merkleCfg("maxn", 2, "onlyn", 4, "maxhashes", 2, "maxflagbytes", 1, "hashbits", 2)},
+			{Dir: "merkleblock", Name: "ZZ_C12_extract", Variant: "n=5,<=4 hashes,2 flag bytes", Tiers: "thorough", Reach: []string{"extracted"}, Tweak: merkleCfg("maxn", 2, "onlyn", 5, "maxhashes", 4, "maxflagbytes", 2, "hashbits", 2)},
 			{Dir: "merkleblock", Name: "ZZ_C12_extract", Variant: "n<=4,flags<=1B,full hashes", Tiers: "thorough", Reach: []string{"extracted", "accepted"}, Tweak: merkleCfg("maxn", 4, "maxflagbytes", 1, "bigcounthashes", 2)},
 		},
 	})
